@@ -936,7 +936,31 @@ def _probe():
             for k in ("out", "out2", "out3"):
                 sub.pop(k, None)
             sub["op"] = nm
-            return {"a": x_id, "sub": sub, "mono": rng.random() < 0.5, "others": [i for i in ids if i and i != x_id]}
+            st = {"a": x_id, "sub": sub, "mono": rng.random() < 0.5, "others": [i for i in ids if i and i != x_id]}
+            # a few more read-only operations on the same laden/twin pair
+            more = []
+            for _ in range(rng.randint(0, 2)):
+                nm2 = rng.choice(PROBE_OPS)
+                w.force_a = x_id
+                try:
+                    sub2 = REGISTRY[nm2].gen(w, rng)
+                except (IndexError, ValueError, KeyError, Skip):
+                    sub2 = None
+                finally:
+                    w.force_a = None
+                if sub2 is None:
+                    continue
+                ids2 = [sub2.get("a"), sub2.get("b")] + sub2.get("others", [])
+                if x_id not in ids2:
+                    continue
+                for k in ("out", "out2", "out3"):
+                    sub2.pop(k, None)
+                sub2["op"] = nm2
+                more.append(sub2)
+                st["others"] = st["others"] + [i for i in ids2 if i and i != x_id and i not in st["others"]]
+            if more:
+                st["more"] = more
+            return st
         return None
 
     def run(w, s):
@@ -985,14 +1009,30 @@ def _probe():
                 if d and check:
                     raise Violation("C05", "mono_stale", "axis %r is_monotonic(): %s (labels %r)" % (
                         ax.name, d, V.labels_list(ax.values)))
-        # (c) one read-only operation on both
+        # (c) read-only operations on both
+        for sub in [s["sub"]] + list(s.get("more", [])):
+            op = REGISTRY[sub["op"]]
+            try:
+                for i in op.operands(sub):
+                    if i is not None:
+                        w.get(i)
+            except Skip:
+                continue
+            r = _probe_one(w, s, x, twin, op, sub, check)
+            if r == "stop":
+                break
+        return None
+    return gen, run
+
+
+def _probe_one(w, s, x, twin, op, sub, check):
         partners = [i for i in op.operands(sub) if i and i != s["a"]]
         pb = {i: V.snap(w.get(i)) for i in partners}
         xb = V.snap(x)
         g1 = _guard(lambda: op.run(w, sub))
         if any(V.snap(w.get(i)) != pb[i] for i in partners) or V.snap(x) != xb:
             w.count("c05:probe_skipped_operand_changed")
-            return None
+            return "stop"
         w.override = {s["a"]: twin}
         try:
             g2 = _guard(lambda: op.run(w, sub))
@@ -1003,7 +1043,6 @@ def _probe():
         if d and check:
             raise Violation("C05", "twin_diff", "%s on a history-laden array vs a freshly built twin: %s" % (sub["op"], d))
         return None
-    return gen, run
 
 
 REGISTRY["probe"].operands = lambda s: [s.get("a")] + list(s.get("others", []))
